@@ -553,6 +553,89 @@ def item_equality_looks_at_other(prog, rep, rule="removal-by-equality"):
     rep.ok(rule, f"{n} comparison terms in the package's __eq__ methods: none compares an attribute with itself")
 
 
+def arguments_walked_once(prog, rep, rule="bulk-delegation"):
+    """A bulk operation (list assignment, add-many, remove-many) is handed an iterable - possibly a one-shot one (`zip(channels, plats)`,
+    a generator over another block).  A method that walks it twice without materialising it finds it exhausted the second time:
+    a "check first, install afterwards" setter then installs nothing, honours and refuses no channel, and the block is left empty."""
+    ITER_FUNCS = ("list", "tuple", "sorted", "set", "frozenset", "all", "any", "sum", "min", "max", "enumerate", "zip", "iter", "map", "filter", "reversed", "dict")
+    n = 0
+    for cname in EXPECTED:
+        c = next((k for m in prog.modules.values() for k in m.classes.values() if k.name == cname), None)
+        if c is None:
+            continue
+        for f in c.all_funcs():
+            if f.name.startswith("__") or not f.params:
+                continue
+            for vals in f.params:
+                passes = []
+                for x in walk_no_nested(f.node):
+                    if isinstance(x, ast.For) and isinstance(x.iter, ast.Name) and x.iter.id == vals:
+                        passes.append(x)
+                    elif isinstance(x, (ast.ListComp, ast.GeneratorExp, ast.SetComp, ast.DictComp)) and any(isinstance(g.iter, ast.Name) and g.iter.id == vals for g in x.generators):
+                        passes.append(x)
+                    elif isinstance(x, ast.Call) and norm(x.func) in ITER_FUNCS and any(isinstance(a, ast.Name) and a.id == vals for a in x.args):
+                        passes.append(x)
+                if not passes:
+                    continue
+                n += 1
+                # passes in different arms of one `if` never both run: keep the largest set of passes that can follow one another
+                parents = {}
+                for p_ in ast.walk(f.node):
+                    for fld in ("body", "orelse"):
+                        for ch in getattr(p_, fld, []) if isinstance(getattr(p_, fld, None), list) else []:
+                            for y in ast.walk(ch):
+                                parents.setdefault(id(y), []).append((id(p_), fld)) if isinstance(p_, ast.If) else None
+
+                def exclusive(a_, b_):
+                    pa, pb = dict(parents.get(id(a_), [])), dict(parents.get(id(b_), []))
+                    return any(k in pb and pb[k] != v for k, v in pa.items())
+                seq = []
+                for x in passes:
+                    if all(not exclusive(x, y) for y in seq):
+                        seq.append(x)
+                passes = seq
+                materialised = any(isinstance(x, ast.Assign) and len(x.targets) == 1 and isinstance(x.targets[0], ast.Name) and x.targets[0].id == vals and isinstance(x.value, ast.Call)
+                                   and norm(x.value.func) in ("list", "tuple") for x in walk_no_nested(f.node))
+                fq = f"{cname}.{f.name}" + (".setter" if f.kind == "setter" else "")
+                if len(passes) > 1 and not materialised:
+                    rep.fail(rule, c.module.path.name, fq, passes[1], f"`{vals}` is iterated {len(passes)} times (`{norm(head(passes[0]))[:50]}`, then `{norm(head(passes[1]))[:50]}`) without being materialised: "
+                             "a one-shot iterable is used up by the first pass, so no pair is installed, no explicit channel honoured or refused, and the block ends up empty without an error",
+                             construct=f"{fq} iterates {vals} twice")
+                else:
+                    rep.ok(rule, f"{fq}: `{vals}` is walked once")
+    rep.floor(rule + "/walked-once", n, 2)
+
+
+def refusals_are_total(prog, rep, rule="channel-unique-guard"):
+    """"Refused with ValueError if taken": building the refusal's message must not be able to raise something else first.  A message
+    that indexes a list with the channel number (`self._platforms[channel]`), calls a lookup or formats with `%` fails for some of the
+    very inputs it is meant to refuse, and the caller gets IndexError / KeyError instead of the ValueError."""
+    n = 0
+    for cname in EXPECTED:
+        c = next((k for m in prog.modules.values() for k in m.classes.values() if k.name == cname), None)
+        if c is None:
+            continue
+        for f in c.all_funcs():
+            for r in [x for x in walk_no_nested(f.node) if isinstance(x, ast.Raise) and isinstance(x.exc, ast.Call)]:
+                for a in list(r.exc.args) + [k.value for k in r.exc.keywords]:
+                    n += 1
+                    bad = None
+                    for y in ast.walk(a):
+                        # what can raise on its own: indexing with a computed index, %-formatting, method calls (lookups, .format, .index)
+                        if isinstance(y, ast.Subscript) and not isinstance(y.slice, ast.Constant):
+                            bad = y
+                        elif isinstance(y, ast.BinOp) and isinstance(y.op, ast.Mod):
+                            bad = y
+                        elif isinstance(y, ast.Call) and isinstance(y.func, ast.Attribute) and not isinstance(y.func.value, ast.Constant):
+                            bad = y
+                        if bad is not None:
+                            break
+                    if bad is not None:
+                        rep.fail(rule, c.module.path.name, f"{cname}.{f.name}", r, f"the message of `raise {norm(r.exc.func)}` evaluates `{norm(bad)[:60]}`, which can itself raise (an index / lookup / formatting error) "
+                                 "for inputs that are to be refused: the caller sees that error instead of the refusal", construct=f"{cname}.{f.name} refusal message")
+    rep.ok(rule, f"{n} refusal messages of the channel-mapped classes are plain interpolation") if n else None
+
+
 def run(prog, rep):
     cd = Codecs(prog)
     cd.flag_errors(rep)
@@ -573,6 +656,8 @@ def run(prog, rep):
             raise AnalysisError(f"{cname}: parallel pair is now ({a}, {b}); the rule instance table lists ({amap}, {items})")
         n += check_class(prog, cd, rep, cname, amap, items, c)
     rep.attempt(item_equality_looks_at_other, prog, rep)
+    rep.attempt(arguments_walked_once, prog, rep)
+    rep.attempt(refusals_are_total, prog, rep)
     rep.floor("parallel pairs", len(EXPECTED), 3)
     rep.floor("paired-mutation/methods", n, 6)
     rep.note("ForcePlatformsDataBlock.platforms assignment appends to the existing platforms and is not atomic; alignment is kept, which is all C15 asks")
